@@ -80,7 +80,10 @@ struct Hist {
     /// (task id, worker thread name)
     starts: Mutex<Vec<(usize, String)>>,
     finishes: Mutex<Vec<usize>>,
-    running: AtomicUsize,
+    /// tasks between start and finish, per pool generation (a generation = one `start`): after `stop` + `start` the
+    /// previous generation's workers may still be finishing their queue next to the new ones
+    running: Mutex<Vec<usize>>,
+    /// the largest number of tasks of one generation that were running at the same time
     max_running: AtomicUsize,
     /// index of the script step the body is in (ops.len() = the final drop, +1 = returned)
     phase: AtomicUsize,
@@ -90,15 +93,21 @@ struct Hist {
 
 pub struct TaskPanic;
 
-fn task(id: usize, panics: bool, h: Arc<Hist>) -> impl FnOnce() + Send + 'static {
+fn task(id: usize, generation: usize, panics: bool, h: Arc<Hist>) -> impl FnOnce() + Send + 'static {
     move || {
         let name = std::thread::current().name().unwrap_or("?").to_string();
         h.starts.lock().unwrap().push((id, name));
-        let r = h.running.fetch_add(1, Ordering::SeqCst) + 1;
-        h.max_running.fetch_max(r, Ordering::SeqCst);
+        {
+            let mut r = h.running.lock().unwrap();
+            if r.len() <= generation {
+                r.resize(generation + 1, 0);
+            }
+            r[generation] += 1;
+            h.max_running.fetch_max(r[generation], Ordering::SeqCst);
+        }
         shim::notify();
         shim::yield_now();
-        h.running.fetch_sub(1, Ordering::SeqCst);
+        h.running.lock().unwrap()[generation] -= 1;
         if panics {
             std::panic::panic_any(TaskPanic);
         }
@@ -117,13 +126,17 @@ fn body(script: Script, h: Arc<Hist>, submitted: Arc<Mutex<Vec<Submitted>>>) {
     let mut pool = ThreadPool::new(n);
     let mut next_id = 0usize;
     let mut witness_rounds = 0usize;
+    let mut generation = 0usize;
     for (i, op) in script.ops.iter().enumerate() {
         h.phase.store(i, Ordering::SeqCst);
         match op {
-            Op::Start => pool.start(),
+            Op::Start => {
+                generation += 1;
+                pool.start()
+            }
             Op::Exec { panics } => {
                 submitted.lock().unwrap().push(Submitted { id: next_id, panics: *panics });
-                pool.execute(task(next_id, *panics, h.clone()));
+                pool.execute(task(next_id, generation, *panics, h.clone()));
                 next_id += 1;
             }
             Op::WaitAll => {
@@ -293,7 +306,7 @@ pub fn execute(script: &Script, policy: &Policy) -> Exec {
         }
         let mr = h.max_running.load(Ordering::SeqCst);
         if mr > n {
-            fails.push(fail!("too-many-concurrent", "{} tasks were between start and finish at the same time on a {}-thread pool; schedule [{}]", mr, n, sched_text()));
+            fails.push(fail!("too-many-concurrent", "{} tasks submitted after the same start() were between start and finish at the same time on a {}-thread pool; schedule [{}]", mr, n, sched_text()));
         }
         // every worker thread (named by its numeric id) has exited
         if out.end == shim::End::Done {
@@ -531,7 +544,7 @@ fn chunk_summary_path(chunk: usize) -> String {
 /// binary (`hv worker c08sched <tier> <chunk> <nchunks>`), 16 at a time; each child writes a summary that is
 /// merged here.
 pub fn run(ctx: &Ctx) {
-    ctx.rule("schedule mode (scheduling shim, the harness picks every interleaving): a case is a (lifecycle script, schedule) pair. Systematic part: scripts `start, k tasks with every panic placement, [wait-all [, witness] | panicking task + witness], [stop], drop` for N in 1..3 and k up to 4, and for each script every schedule within the pass's bound (stateless DFS over the shim's choice points; delay bounding = number of deviations from the default scheduler, pre-emption bounding = number of switches away from a thread that could continue; a capped pass takes schedules from random places of the frontier). Random part: generated scripts over {start, execute (panicking or not), wait-all, witness, stop} with restarts of a stopped pool, N in 1..4, and a generated choice vector. Oracle at quiescence: every submitted task started exactly once and, unless it panics, finished exactly once; at most N tasks between start and finish; the witness batch (N tasks that each wait for all N) completes; the caller never blocks forever (deadlock = no runnable thread) and never panics; every worker thread has exited. Non-trivial: the schedule deviates from the default one, or a task panics; distinct by (script, choice sequence)");
+    ctx.rule("schedule mode (scheduling shim, the harness picks every interleaving): a case is a (lifecycle script, schedule) pair. Systematic part: scripts `start, k tasks with every panic placement, [wait-all [, witness] | panicking task + witness], [stop], drop` for N in 1..3 and k up to 4, and for each script every schedule within the pass's bound (stateless DFS over the shim's choice points; delay bounding = number of deviations from the default scheduler, pre-emption bounding = number of switches away from a thread that could continue; a capped pass takes schedules from random places of the frontier). Random part: generated scripts over {start, execute (panicking or not), wait-all, witness, stop} with restarts of a stopped pool, N in 1..4, and a generated choice vector. Oracle at quiescence: every submitted task started exactly once and, unless it panics, finished exactly once; at most N tasks of one pool generation (one start()) between start and finish; the witness batch (N tasks that each wait for all N) completes; the caller never blocks forever (deadlock = no runnable thread) and never panics; every worker thread has exited. Non-trivial: the schedule deviates from the default one, or a task panics; distinct by (script, choice sequence)");
     ctx.assume("schedule mode: scheduling points are the shim's operations (lock, send, recv, spawn, join, thread exit) plus one yield inside each task; memory-model effects below that granularity are not explored. The detached recovery thread may stay blocked forever");
     let exe = match std::env::current_exe() {
         Ok(e) => e,
